@@ -628,7 +628,10 @@ class ExprMixin:
             elif kind == "value":
                 out.append((s, r[1]))
             elif kind == "getattr" and not raw:
-                out.extend(self.call_function(s, r[1], [ref, attr], {}, node))
+                for s2, v in self.call_function(s, r[1], [ref, attr], {}, node):
+                    if default is not MISSING and isinstance(v, Exc) and v.cls is AttributeError:
+                        v = default     # getattr(obj, name, default) swallows AttributeError from __getattr__ too
+                    out.append((s2, v))
             else:
                 if default is not MISSING:
                     out.append((s, default))
